@@ -142,5 +142,13 @@ bool ops_misc(Ctx& c, const json& s, int idx, bool& handled) {
 			std::vector<unsigned char> fixedBuf(want.size() + 4, 0xEE); Stream::MemoryWriter mw(fixedBuf.data() + 2, want.size()); mw.Write(in); if (!std::equal(want.begin(), want.end(), fixedBuf.begin() + 2) || fixedBuf[0] != 0xEE || fixedBuf[1] != 0xEE || fixedBuf[want.size() + 2] != 0xEE) { Proto::mismatch(site, "fixed-buffer", where("")); return false; }
 			Stream::MemoryReader r(want.data(), want.size()); std::vector<T> back(in.size()); r.Read(back); if (back != in || r.Position() != want.size()) { Proto::mismatch(site, "read-back", where("container")); return false; }
 			Stream::MemoryReader r2(want.data(), want.size()); for (T v : in) { T x; r2.Read(x); if (x != v) { Proto::mismatch(site, "read-back", where("value")); return false; } } return true; };
-		return w == 1 ? run(uint8_t{}) : w == 2 ? run(uint16_t{}) : run(uint32_t{}); }
+		// strings of the same character width go through Reader::Read(basic_string&): the encoded size is size() * sizeof(CharT)
+		auto runStr = [&](auto tag) -> bool { using C = decltype(tag); std::basic_string<C> in; for (auto v : vals) in.push_back((C)v);
+			Stream::DynamicMemoryWriter w1; w1.Write(in); if (dyn_bytes(w1) != want) { Proto::mismatch(site + "/string", "bytes", where("width " + std::to_string(w))); return false; }
+			Stream::MemoryReader r(want.data(), want.size()); std::basic_string<C> back(in.size(), C{}); r.Read(back); if (back != in || r.Position() != want.size()) { Proto::mismatch(site + "/string", "read-back", where("width " + std::to_string(w) + ": consumed " + std::to_string((long long)r.Position()) + " of " + std::to_string(want.size()) + " bytes")); return false; }
+			Stream::DynamicMemoryWriter w2; w2.Write<uint8_t>(in); auto pb = dyn_bytes(w2); Stream::MemoryReader r2(pb.data(), pb.size()); std::basic_string<C> back2; r2.Read<uint8_t>(back2); if (back2 != in || r2.Position() != pb.size() || pb.size() != want.size() + 1) { Proto::mismatch(site + "/string", "read-back", where("size-prefixed, width " + std::to_string(w))); return false; }
+			if (!want.empty()) { Stream::MemoryReader shortR(want.data(), want.size() - 1); std::basic_string<C> b3(in.size(), C{}); if (!throws([&] { shortR.Read(b3); })) { Proto::mismatch(site + "/string", "accepted-should-refuse", where("one byte short of the encoded size, width " + std::to_string(w))); return false; } if (shortR.Position() != 0) { Proto::mismatch(site + "/string", "state-after-failure", where("")); return false; } }
+			return true; };
+		if (!(w == 1 ? run(uint8_t{}) : w == 2 ? run(uint16_t{}) : run(uint32_t{}))) return false;
+		return w == 1 ? runStr(char{}) : w == 2 ? runStr(char16_t{}) : runStr(char32_t{}); }
 	OPS_EPILOGUE }
